@@ -52,6 +52,8 @@ def rs(s):
             out.append("\\n")
         elif ch == "\t":
             out.append("\\t")
+        elif ch == "é":
+            out.append("\\u{e9}")      # the same character, written as an escape in the source
         else:
             out.append(ch)
     return '"' + "".join(out) + '"'
@@ -70,6 +72,11 @@ def gen_fixed_attrs(rng):
         return ['#[strum(to_string = "")]'], ""
     if r < 0.07:
         return ['#[strum(serialize = "")]', '#[strum(serialize = "x")]'], "x"
+    if r < 0.10:
+        # the VALUE decides which literal is longest, not how long it looks in the source
+        return ['#[strum(serialize = "\\t\\t\\t")]', '#[strum(serialize = "four")]'], "four"
+    if r < 0.12:
+        return ['#[strum(serialize = r##"a"#b"##, serialize = "plain1")]'], "plain1"
     mode = rng.choice(["none", "to_string", "serialize", "serialize", "both"])
     attrs = []
     canonical = None
@@ -166,6 +173,7 @@ def generate(rng, seed, size):
     cases = []
     for ei in range(target):
         ename = "D%d" % ei
+        out.append("// @case-begin %s\n" % ename)
         prefix = rng.choice(PREFIXES)
         nvar = rng.randint(1, 7)
         # serialize_all: only together with identifiers whose word splitting is unambiguous (casing.py)
@@ -359,6 +367,7 @@ def generate(rng, seed, size):
             for v in variants))
         cases.append('    Case { name: "%s", desc: %s, variants: VARIANTS_%s, make: make_%s },\n'
                      % (ename, rs(desc), ename.upper(), ename.lower()))
+        out.append("// @case-end %s\n\n" % ename)
     out.append("pub static CASES: &[Case] = &[\n")
     out.extend(cases)
     out.append("];\n")
